@@ -1,14 +1,44 @@
-//! Finite differences with one Richardson step.
+//! Finite differences with one Richardson step and a measured error bar.
+//!
+//! Every estimate carries its own error bar: the truncation error is estimated from
+//! the difference between the Richardson-extrapolated and the half-step value, the
+//! round-off error from the measured noise of the function (its response to a
+//! perturbation far below the step) divided by the step. An analytic value is
+//! compared with the estimate whose error bar is smallest; only a disagreement beyond
+//! three error bars counts as a deviation. A wrong analytic derivative disagrees by a
+//! fixed amount however small the error bar gets, while states where finite
+//! differences cannot resolve the derivative (round-off at very low density, stiff
+//! states next to a spinodal) are reported as unresolved instead of raising an alarm.
 
-/// d f / d x at x, central differences with relative step `h` (absolute step h*|x|)
-/// and one Richardson extrapolation. `f` returns a vector of observables; `None`
-/// (state could not be built) propagates.
-pub fn deriv<F: Fn(f64) -> Option<Vec<f64>>>(f: F, x: f64, h: f64) -> Option<Vec<f64>> {
-    deriv_abs(f, x, h * x.abs())
+#[derive(Clone, Debug)]
+pub struct Est {
+    pub d: Vec<f64>,
+    pub err: Vec<f64>,
 }
 
-/// same with an absolute step
-pub fn deriv_abs<F: Fn(f64) -> Option<Vec<f64>>>(f: F, x: f64, dx: f64) -> Option<Vec<f64>> {
+/// measured noise of `f` at `x`: largest response to relative perturbations ~1e-13
+pub fn noise<F: Fn(f64) -> Option<Vec<f64>>>(f: &F, x: f64) -> Option<Vec<f64>> {
+    let f0 = f(x)?;
+    let mut n = vec![0.0f64; f0.len()];
+    for k in [1.0, -1.0, 2.0] {
+        let fx = f(x * (1.0 + k * 2.5e-13))?;
+        for i in 0..f0.len() {
+            n[i] = n[i].max((fx[i] - f0[i]).abs());
+        }
+    }
+    // never below the granularity of the value itself
+    for i in 0..f0.len() {
+        n[i] = n[i].max(8.0 * f64::EPSILON * f0[i].abs());
+    }
+    Some(n)
+}
+
+pub fn est_central<F: Fn(f64) -> Option<Vec<f64>>>(
+    f: &F,
+    x: f64,
+    dx: f64,
+    noise: &[f64],
+) -> Option<Est> {
     let d = |dx: f64| -> Option<Vec<f64>> {
         let a = f(x + dx)?;
         let b = f(x - dx)?;
@@ -16,22 +46,19 @@ pub fn deriv_abs<F: Fn(f64) -> Option<Vec<f64>>>(f: F, x: f64, dx: f64) -> Optio
     };
     let d1 = d(dx)?;
     let d2 = d(0.5 * dx)?;
-    Some(
-        d1.iter()
-            .zip(&d2)
-            .map(|(d1, d2)| (4.0 * d2 - d1) / 3.0)
-            .collect(),
-    )
+    let r: Vec<f64> = d1.iter().zip(&d2).map(|(d1, d2)| (4.0 * d2 - d1) / 3.0).collect();
+    let err = (0..r.len())
+        .map(|i| (r[i] - d2[i]).abs() + 4.0 * noise[i] / dx)
+        .collect();
+    Some(Est { d: r, err })
 }
 
-/// |a-b| / max(|a|,|b|,scale)
-pub fn serr(a: f64, b: f64, scale: f64) -> f64 {
-    crate::monitor::scaled_err(a, b, scale)
-}
-
-/// forward (one-sided) second-order difference with one Richardson step; used when
-/// x - dx would leave the domain (mole number of a dilute component)
-pub fn deriv_fwd<F: Fn(f64) -> Option<Vec<f64>>>(f: F, x: f64, dx: f64) -> Option<Vec<f64>> {
+pub fn est_forward<F: Fn(f64) -> Option<Vec<f64>>>(
+    f: &F,
+    x: f64,
+    dx: f64,
+    noise: &[f64],
+) -> Option<Est> {
     let f0 = f(x)?;
     let d = |dx: f64| -> Option<Vec<f64>> {
         let a = f(x + dx)?;
@@ -44,59 +71,82 @@ pub fn deriv_fwd<F: Fn(f64) -> Option<Vec<f64>>>(f: F, x: f64, dx: f64) -> Optio
     };
     let d1 = d(dx)?;
     let d2 = d(0.5 * dx)?;
-    Some(
-        d1.iter()
-            .zip(&d2)
-            .map(|(d1, d2)| (4.0 * d2 - d1) / 3.0)
-            .collect(),
-    )
+    let r: Vec<f64> = d1.iter().zip(&d2).map(|(d1, d2)| (4.0 * d2 - d1) / 3.0).collect();
+    let err = (0..r.len())
+        .map(|i| (r[i] - d2[i]).abs() + 16.0 * noise[i] / dx)
+        .collect();
+    Some(Est { d: r, err })
 }
 
-/// derivative w.r.t. a mole number: step relative to the total amount; central if the
-/// component is abundant enough, forward otherwise
-pub fn deriv_n<F: Fn(f64) -> Option<Vec<f64>>>(f: F, nk: f64, ntot: f64, h: f64) -> Option<Vec<f64>> {
-    let dx = h * ntot;
-    if nk > 2.0 * dx {
-        deriv_abs(f, nk, dx)
-    } else {
-        deriv_fwd(f, nk, dx)
-    }
-}
-
-/// Several finite-difference estimates of the same derivative with different step
-/// choices. A derivative getter is accepted if it agrees with any of them: a wrong
-/// analytic value disagrees with all, while a single step choice can be spoiled by
-/// round-off (tiny steps at low density) or by truncation (a step that is large on
-/// the scale on which the function varies, e.g. association of a dilute component).
-pub fn deriv_t_or_v<F: Fn(f64) -> Option<Vec<f64>>>(f: F, x: f64) -> Vec<Vec<f64>> {
-    [1e-3, 1e-4]
-        .iter()
-        .filter_map(|&h| deriv(&f, x, h))
+/// estimates of d f / d x with relative steps `hs`
+pub fn ests_rel<F: Fn(f64) -> Option<Vec<f64>>>(f: F, x: f64, hs: &[f64]) -> Vec<Est> {
+    let Some(n) = noise(&f, x) else {
+        return vec![];
+    };
+    hs.iter()
+        .filter_map(|&h| est_central(&f, x, h * x.abs(), &n))
         .collect()
 }
 
-pub fn deriv_n_multi<F: Fn(f64) -> Option<Vec<f64>>>(f: F, nk: f64, ntot: f64) -> Vec<Vec<f64>> {
+/// estimates of the derivative w.r.t. a mole number n_k: steps relative to the total
+/// amount (central if the component is abundant enough, forward otherwise) and steps
+/// relative to n_k itself
+pub fn ests_n<F: Fn(f64) -> Option<Vec<f64>>>(f: F, nk: f64, ntot: f64) -> Vec<Est> {
+    let Some(n) = noise(&f, nk) else {
+        return vec![];
+    };
     let mut out = Vec::new();
-    if let Some(d) = deriv_n(&f, nk, ntot, 1e-3) {
-        out.push(d);
+    for h in [1e-3, 1e-4] {
+        let dx = h * ntot;
+        let e = if nk > 2.0 * dx {
+            est_central(&f, nk, dx, &n)
+        } else {
+            est_forward(&f, nk, dx, &n)
+        };
+        if let Some(e) = e {
+            out.push(e);
+        }
     }
-    if let Some(d) = deriv(&f, nk, 1e-3) {
-        out.push(d);
-    }
-    if let Some(d) = deriv(&f, nk, 3e-2) {
-        out.push(d);
+    for h in [3e-2, 1e-3] {
+        if let Some(e) = est_central(&f, nk, h * nk, &n) {
+            out.push(e);
+        }
     }
     out
 }
 
-/// smallest scaled deviation of `ad` from the estimates (component `i`)
-pub fn best_dev(ad: f64, ests: &[Vec<f64>], i: usize, sign: f64, scale: f64) -> (f64, f64) {
-    let mut best = (f64::INFINITY, f64::NAN);
-    for e in ests {
-        let d = serr(ad, sign * e[i], scale);
-        if d < best.0 || best.1.is_nan() {
-            best = (d, sign * e[i]);
-        }
+pub struct Judgement {
+    /// deviation beyond three error bars, scaled by max(|ad|,|fd|,scale)
+    pub dev: f64,
+    pub fd: f64,
+    /// error bar of the estimate used, same scaling
+    pub relerr: f64,
+}
+
+/// compare the analytic value with the estimate of component `i` that has the
+/// smallest error bar (`sign` flips the estimate, e.g. p = -dA/dV)
+pub fn judge(ad: f64, ests: &[Est], i: usize, sign: f64, scale: f64) -> Option<Judgement> {
+    let e = ests
+        .iter()
+        .filter(|e| e.d[i].is_finite() && e.err[i].is_finite())
+        .min_by(|a, b| a.err[i].partial_cmp(&b.err[i]).unwrap())?;
+    let fd = sign * e.d[i];
+    if !ad.is_finite() {
+        return Some(Judgement {
+            dev: f64::INFINITY,
+            fd,
+            relerr: 0.0,
+        });
     }
-    best
+    let den = ad.abs().max(fd.abs()).max(scale.abs()).max(f64::MIN_POSITIVE);
+    Some(Judgement {
+        dev: ((ad - fd).abs() - 3.0 * e.err[i]).max(0.0) / den,
+        fd,
+        relerr: e.err[i] / den,
+    })
+}
+
+/// |a-b| / max(|a|,|b|,scale)
+pub fn serr(a: f64, b: f64, scale: f64) -> f64 {
+    crate::monitor::scaled_err(a, b, scale)
 }
